@@ -86,7 +86,7 @@ func sqlC09(args []string) error {
 	ctx := args[3]
 	os.MkdirAll(dir, 0o755)
 	rng := rand.New(rand.NewSource(envSeed()))
-	pools := []int{64, 128, 512}
+	pools := []int{64, 128, 256, 512}
 	if ctx == "C07" {
 		pools = []int{1024, 2048, 4096} // a hash index keeps its bucket pages resident
 	}
@@ -94,7 +94,11 @@ func sqlC09(args []string) error {
 		pools = []int{256, 512, 1024} // up to four tables with up to four indexed columns: each index keeps pages pinned
 	}
 	for sc := 0; sc < nscen; sc++ {
-		s, err := newFileRun(tw, ctx, dir, pools[rng.Intn(len(pools))])
+		pool := pools[rng.Intn(len(pools))]
+		if ctx == "C09" && pool < 1024 && sc%2 == 1 {
+			pool = 1024 // the scenarios with a second, large table and a join: more pages pinned at a time
+		}
+		s, err := newFileRun(tw, ctx, dir, pool)
 		if err != nil {
 			return err
 		}
@@ -159,9 +163,32 @@ func sqlC09(args []string) error {
 			s.stats()
 		}
 		readAll()
+		if ctx == "C09" && sc%2 == 1 {
+			// a join whose build side needs several temporary pages (they are deallocated afterwards), then growth that
+			// takes those page ids again - all before the clean stop
+			big := s.bigJoin(rng, tables[0], fmt.Sprintf("b%d", sc))
+			tables = append(tables, big)
+			maxRanks[big.name] = NRanks - 1
+			work(6 + rng.Intn(10))
+			for i := 0; i < 12; i++ {
+				s.insert(tables[0], [][]int{randRow(rng, tables[0], maxRanks[tables[0].name])}, nil)
+			}
+			readAll()
+		}
 		cycles := 1 + rng.Intn(3)
+		// C10: the first 32 scenarios enumerate every launch pattern of three stops: (clean | crash-style) x3 and
+		// (work | read-only launch) x2 - histories like "clean stop; read-only launch, crash; work, crash" are then
+		// covered by construction, not by luck
+		pattern := -1
+		if ctx == "C10" && sc < 32 {
+			pattern = sc
+			cycles = 3
+		}
 		for cy := 0; cy < cycles && !s.dead; cy++ {
 			clean := ctx == "C09" || rng.Intn(2) == 0
+			if pattern >= 0 {
+				clean = pattern&(1<<uint(cy)) != 0
+			}
 			if ctx == "C07" && cy == 0 && rng.Intn(2) == 0 {
 				// a rolled-back transaction right before the stop
 				s.begin()
@@ -177,11 +204,21 @@ func sqlC09(args []string) error {
 				s.stats()
 				readAll()
 			}
-			if ctx == "C10" && len(tables) < 4 && rng.Intn(3) != 0 {
+			if ctx == "C10" && pattern < 0 && len(tables) < 4 && rng.Intn(3) != 0 {
 				addTable()
 				readAll()
 			}
-			work(1 + rng.Intn(6))
+			if ctx == "C09" && pool >= 256 && len(tables) < 3 && rng.Intn(2) == 0 { // DDL after a reopen (every index keeps pages pinned: not in the 16 / 32 frame pools)
+				addTable()
+				readAll()
+			}
+			idle := rng.Intn(3) == 0 // (every third launch only reads)
+			if pattern >= 0 && cy < 2 {
+				idle = pattern&(8<<uint(cy)) != 0
+			}
+			if !idle {
+				work(1 + rng.Intn(6))
+			}
 			readAll()
 		}
 		s.closeFiles()
@@ -340,4 +377,24 @@ func (s *sqlRun) hashRestarts(rng *rand.Rand, sc int) {
 		}
 		look()
 	}
+}
+
+// bigJoin creates a table with ~150 rows of 300-byte payloads whose first column has the type of t's first column,
+// and joins it with t in both orders: the build side of a hash join then needs several temporary pages.
+func (s *sqlRun) bigJoin(rng *rand.Rand, t *tableDef, name string) *tableDef {
+	big := &tableDef{name: name, cols: []string{t.cols[0], "varchar"}, names: []string{"g0", "g1"}, kinds: []string{"none", "none"}}
+	s.createAPI(big)
+	for i := 0; i < 15 && !s.dead; i++ {
+		rows := [][]int{}
+		for j := 0; j < 10; j++ {
+			rows = append(rows, []int{rng.Intn(NRanks - 1), NRanks - 1}) // (rank 5 strings are 300 bytes)
+		}
+		s.insert(big, rows, nil)
+	}
+	s.stats()
+	on := [][4]int{{1, 0, 2, 0}}
+	// (the payload column is selected, so the build side carries 300-byte tuples)
+	s.joinQ([]*tableDef{big, t}, on, nil, [][2]int{{1, 0}, {1, 1}, {2, 0}}, false)
+	s.joinQ([]*tableDef{t, big}, on, nil, [][2]int{{2, 1}, {2, 0}, {1, 0}}, rng.Intn(2) == 0)
+	return big
 }
